@@ -72,11 +72,17 @@ class WrappedCallSite {
   }
 
   toString () {
-    return this.callSite.toString()
+    return this.translatePosition(this.callSite.toString())
   }
 
   toLocaleString () {
-    return this.callSite.toLocaleString()
+    return this.translatePosition(this.callSite.toLocaleString())
+  }
+
+  // the textual form of the call site carries the position too
+  translatePosition (text) {
+    const position = `${this.callSite.getFileName()}:${this.callSite.getLineNumber()}:${this.callSite.getColumnNumber()}`
+    return text.replace(position, () => `${this.source}:${this.lineNumber}:${this.columnNumber}`)
   }
 }
 
